@@ -108,8 +108,16 @@ def body_diff(case, rec):
             orig = fai.sequence_bytes
             fai.sequence_bytes = lambda info, s, e, _o=orig: (spans.append(e - s + 1), _o(info, s, e))[1]
             try:
-                sink = Sink()
                 asm_obj = conv.mk_assembly("a", asm_plain)
+                if b % 2:
+                    # the index object has already served a stream with another gap character
+                    pre = Sink()
+                    must(FastaStream(pre, fai, gap_character=b"-").write_assembly, asm_obj, what=f"streaming with buffer {b}, gap character '-'")
+                    if pre.buf.getvalue() != ref.apply_agp_to_fasta(seqs, asm_plain, 60, gap=b"-"):
+                        raise Violation(f"streamed bytes with buffer {b} and gap character '-' differ from the reference")
+                    spans.clear()
+                    proxy.max_read = 0
+                sink = Sink()
                 must(FastaStream(sink, fai).write_assembly, asm_obj, what=f"streaming with buffer {b}")
                 if sink.buf.getvalue() != want_stream:
                     raise Violation(f"streamed bytes with buffer {b} differ from the reference / other buffer sizes")
@@ -123,13 +131,23 @@ def body_diff(case, rec):
                     for row in s.rows:
                         it = fai.get_gap_iter(row) if isinstance(row, Gap) else fai.get_sequence_iter(row)
                         total = 0
-                        for chunk in it:
-                            n = len(chunk.getvalue())
+                        # a small row's chunks are all collected before any is read (a caller may hold several)
+                        chunks = list(it) if row.length <= 4096 else it
+                        joined = []
+                        for chunk in chunks:
+                            chunk_bytes = chunk.getvalue()
+                            n = len(chunk_bytes)
                             total += n
+                            if row.length <= 4096:
+                                joined.append(chunk_bytes)
                             if n > b:
                                 raise Violation(f"buffer {b}: iterator yielded a chunk of {n} bytes for row {row}")
                         if total != row.length:
                             raise Violation(f"buffer {b}: chunks of row {row} total {total} bytes, row length {row.length}")
+                        if joined and isinstance(row, Fragment):
+                            piece = seqs[row.name][row.start - 1 : row.end]
+                            if b"".join(joined) != (ref.revcomp(piece) if row.strand == -1 else piece):
+                                raise Violation(f"buffer {b}: the chunks of row {row}, collected and then read, do not spell its sequence")
             finally:
                 proxy.close()
 
